@@ -215,6 +215,8 @@ class FoldUnit:
         if 'declare void @llvm.assume' not in text:
             text += '\ndeclare void @llvm.assume(i1 noundef)\n'
         for y in noinline:
+            # external linkage: interprocedural passes must not specialise or re-shape the callee whose call sites are inspected
+            text = re.sub(r'^define internal ([^\n]*@%s\()' % re.escape(y), r'define \1', text, flags=re.M)
             text = re.sub(r'^(define [^\n]*@%s\([^\n]*?)( #\d+)?( (?:!dbg|personality)[^\n]*)? \{$' % re.escape(y),
                           lambda m: m.group(1) + ' noinline' + (m.group(2) or '') + (m.group(3) or '') + ' {', text, flags=re.M)
         return text
